@@ -23,7 +23,7 @@ func vhSetup(flags int) vx.Coro {
 		vx.UseStore(sqlite.VXWorker(vx.DB("sqlite")))
 	}
 	vx.SetConfig(&system.Config{Url: vx.String("config.url"), PromiseBatchSize: vx.Opt("batch", 2), ScheduleBatchSize: vx.Opt("batch", 2),
-		TaskBatchSize: vx.Opt("batch", 2), TaskEnqueueDelay: 10000000000})
+		TaskBatchSize: vx.Opt("batch", 2), TaskEnqueueDelay: vx.DurationMs("config.taskEnqueueDelay", 0, 1<<32), SignalTimeout: vx.DurationMs("config.signalTimeout", 0, 1<<32)})
 	vx.AutoO2("O2")
 	c := vx.Coroutine(flags)
 	vx.Havoc()
@@ -74,7 +74,7 @@ func VXProcess(c vx.Coro, sqe *bus.SQE[t_api.Request, t_api.Response]) (res *t_a
 	m := metrics.New(prometheus.NewRegistry())
 	a := i_api.New(1, m)
 	cfg := &system.Config{Url: vx.String("config.url"), CoroutineMaxSize: 1, SubmissionBatchSize: 1, CompletionBatchSize: 1,
-		PromiseBatchSize: vx.Opt("batch", 2), ScheduleBatchSize: vx.Opt("batch", 2), TaskBatchSize: vx.Opt("batch", 2), TaskEnqueueDelay: 10000000000, SignalTimeout: 1000000000}
+		PromiseBatchSize: vx.Opt("batch", 2), ScheduleBatchSize: vx.Opt("batch", 2), TaskBatchSize: vx.Opt("batch", 2), TaskEnqueueDelay: vx.DurationMs("config.taskEnqueueDelay2", 0, 1<<32), SignalTimeout: vx.DurationMs("config.signalTimeout2", 0, 1<<32)}
 	s := system.New(a, &vxAIO{}, cfg, m)
 	kind := sqe.Submission.Kind
 	if f, ok := vx.ServeRegistered(int(kind)).(func(gocoro.Coroutine[*t_aio.Submission, *t_aio.Completion, any], *t_api.Request) (*t_api.Response, error)); ok {
